@@ -284,6 +284,16 @@ Proof. destruct a; reflexivity. Qed.
 Lemma set_at_app (pre post : list nat) y x : set_at (pre ++ y :: post) (length pre) x = pre ++ x :: post.
 Proof. induction pre as [|p pre IH]; cbn; [reflexivity | rewrite IH; reflexivity]. Qed.
 
+Lemma fill_ranges_inv_length {A : Type} (d zero : A) (xs : list A) cum (vals : list A) :
+  length (fill_ranges d zero (length xs) cum vals) = length xs /\ True.
+Proof.
+  split; [|exact I]. unfold fill_ranges.
+  assert (G : forall ks acc, length acc = length xs ->
+            length (fold_left (fun acc i => assign_range acc (nth i cum 0) (nth (S i) cum 0) (nth i vals d)) ks acc) = length xs).
+  { induction ks as [|k ks IH]; intros acc Ha; [exact Ha|]. cbn [fold_left]. apply IH. rewrite length_assign_range. exact Ha. }
+  apply G. apply repeat_length.
+Qed.
+
 Section TypedP.
   Context {A : Type}.
   Variable d : A.
@@ -364,23 +374,46 @@ Section TypedP.
     symmetry. apply map_nth.
   Qed.
 
+  Lemma length_fill_ranges_t (zero : A) (xval : tarr A) cum sdt (l : list A) :
+    length (snd (fill_ranges_t d conv zero xval cum sdt l)) = length (snd xval).
+  Proof.
+    unfold fill_ranges_t.
+    assert (G : forall ks acc, length (snd acc) = length (snd xval) ->
+              length (snd (fold_left (fun acc i => assign_range_t conv acc (nth i cum 0) (nth (S i) cum 0) sdt (nth i l d)) ks acc))
+              = length (snd xval)).
+    { induction ks as [|k ks IH]; intros acc Ha; [exact Ha|]. cbn [fold_left]. apply IH.
+      unfold assign_range_t. cbn [snd]. rewrite length_assign_range. exact Ha. }
+    apply G. unfold zeros_like. cbn [snd]. apply repeat_length.
+  Qed.
+
+  Lemma as_float_F64 (l : list A) : as_float conv (F64, l) = (F64, l).
+  Proof. unfold as_float. cbn [fst snd]. rewrite map_conv_id. reflexivity. Qed.
+
+  Lemma map_repeat (f : A -> A) a n : map f (repeat a n) = repeat (f a) n.
+  Proof. induction n as [|n IH]; cbn; [reflexivity | rewrite IH; reflexivity]. Qed.
+
   Theorem expand_t_per_signal (zero : A) (xs : list A) nvars cum sdt (l : list A) : length l = nvars ->
     expand_bound_t d conv zero (F64, xs) nvars cum (TBList sdt l)
     = option_map (pair F64) (expand_bound d zero (length xs) nvars cum (BList (map (conv sdt F64) l))).
   Proof.
     intros Hl. unfold expand_bound_t, expand_bound. rewrite map_length, Hl, Nat.eqb_refl.
-    unfold fill_ranges_t, fill_ranges, zeros_like. cbn [fst snd]. rewrite map_length.
-    rewrite fill_ranges_t_F64 by lia. cbn [snd].
-    destruct (_ =? length xs); reflexivity.
+    rewrite length_fill_ranges_t. cbn [snd]. rewrite Nat.eqb_refl.
+    destruct (fill_ranges_inv_length d zero xs cum (map (conv sdt F64) l)) as [-> _]. rewrite Nat.eqb_refl.
+    unfold fill_ranges_t, fill_ranges, zeros_like. cbn [fst snd option_map]. rewrite map_length.
+    rewrite fill_ranges_t_F64 by lia. rewrite as_float_F64. reflexivity.
   Qed.
 
   Theorem expand_t_scalar (zero : A) (xs : list A) nvars cum sdt (a : A) :
     expand_bound_t d conv zero (F64, xs) nvars cum (TBScal sdt a) = Some (F64, repeat (conv sdt F64 a) (length xs)).
-  Proof. unfold expand_bound_t, scal_times_ones_like. cbn [fst snd]. rewrite promote_F64_r. reflexivity. Qed.
+  Proof.
+    unfold expand_bound_t, scal_times_ones_like. cbn [fst snd]. rewrite promote_F64_r, repeat_length, Nat.eqb_refl.
+    rewrite as_float_F64. reflexivity.
+  Qed.
 
+  (* one entry per variable (a list, a tuple, an array of any dtype): converted to a float64 array *)
   Theorem expand_t_per_variable (zero : A) (xval : tarr A) nvars cum sdt (l : list A) : length l <> nvars ->
     expand_bound_t d conv zero xval nvars cum (TBList sdt l)
-    = if length l =? length (snd xval) then Some (sdt, l) else None.
+    = if length l =? length (snd xval) then Some (F64, map (conv sdt F64) l) else None.
   Proof.
     intros Hv. unfold expand_bound_t. destruct (Nat.eqb_spec (length l) nvars); [contradiction | reflexivity].
   Qed.
@@ -393,6 +426,11 @@ Section TypedP.
     unfold fill_ranges_t, fill_ranges, zeros_like. cbn [fst snd]. rewrite map_length.
     rewrite fill_ranges_t_F64 by lia. reflexivity.
   Qed.
+
+  (* whatever the dtype of the design vector and of the specification: what MMA.response leaves in xmin / xmax is float64 *)
+  Theorem expand_t_dtype (zero : A) (xval : tarr A) nvars cum b r :
+    expand_bound_t d conv zero xval nvars cum b = Some r -> fst r = F64.
+  Proof. unfold expand_bound_t. destruct (_ =? _); [|discriminate]. intros E. injection E as <-. reflexivity. Qed.
 
   (* ---- the written-back states have the dtype of the design vector *)
   Theorem writeback_t_dtype (xval : tarr A) cum nvars s :
